@@ -33,8 +33,8 @@ func init() {
 		Old: "\treturn QueryIter(n, expr).MoveNext()", New: "\t_, ok := expr.Evaluate(createNavigator(n)).(*xpath.NodeIterator)\n\treturn ok && QueryIter(n, expr).MoveNext()",
 		Rule: "R14c", Substr: "Evaluate", Why: "Evaluate on a shared compiled expression"})
 	control(Control{ID: "c14-lazy-regexp-in-decl", Prop: "C14", File: "extensions/omniv21/fileformat/flatfile/fixedlength/decl.go",
-		Old: "func (e *EnvelopeDecl) matchFooter(line []byte) bool {\n\tif e.footerRegexp == nil {\n\t\treturn true\n\t}",
-		New: "func (e *EnvelopeDecl) matchFooter(line []byte) bool {\n\tif e.footerRegexp == nil {\n\t\tif e.Footer == nil {\n\t\t\treturn true\n\t\t}\n\t\te.footerRegexp = regexp.MustCompile(*e.Footer)\n\t}",
+		Old:  "func (e *EnvelopeDecl) matchFooter(line []byte) bool {\n\tif e.footerRegexp == nil {\n\t\treturn true\n\t}",
+		New:  "func (e *EnvelopeDecl) matchFooter(line []byte) bool {\n\tif e.footerRegexp == nil {\n\t\tif e.Footer == nil {\n\t\t\treturn true\n\t\t}\n\t\te.footerRegexp = regexp.MustCompile(*e.Footer)\n\t}",
 		Rule: "R14a", Substr: "matchFooter", Why: "lazy initialisation inside a schema-owned declaration"})
 }
 
@@ -145,7 +145,7 @@ func runC14(c *core.Ctx) {
 
 	// ---------------- R14b globals read by the run set have init-only writers; objects in globals only used
 	// through synchronised operations
-	c14Globals(c, e, runFns)
+	c14Globals(c, e, runFns, "R14b")
 
 	// ---------------- R14c xpath.Expr methods
 	nExpr := 0
@@ -371,7 +371,7 @@ func c14EmptyIfaceStores(c *core.Ctx) map[*types.Var][]types.Type {
 
 // c14Globals: every package-level variable of the repository read in the run set has init-only writers, and
 // objects held in package-level variables are used only through synchronised operations.
-func c14Globals(c *core.Ctx, e *entrySets, runFns []*ssa.Function) {
+func c14Globals(c *core.Ctx, e *entrySets, runFns []*ssa.Function, rule string) {
 	cg := c.CallGraph()
 	// writers of each repo global, program wide (repo functions)
 	writers := map[*ssa.Global][]*ssa.Function{}
@@ -425,18 +425,18 @@ func c14Globals(c *core.Ctx, e *entrySets, runFns []*ssa.Function) {
 					switch x := in.(type) {
 					case *ssa.UnOp:
 						// plain read of the variable; the loaded object's uses:
-						c14ObjectUses(c, f, x, g)
+						c14ObjectUses(c, f, x, g, rule)
 					case ssa.CallInstruction:
 						o := core.CalleeObj(x)
 						if o != nil && o.Pkg() != nil && (o.Pkg().Path() == "sync/atomic" || (o.Pkg().Path() == "sync" && strings.HasPrefix(core.FuncName(o), "Pool."))) {
-							c.OK("R14b", key, core.InstrPos(in), "address passed to "+o.Pkg().Path()+"."+core.FuncName(o))
+							c.OK(rule, key, core.InstrPos(in), "address passed to "+o.Pkg().Path()+"."+core.FuncName(o))
 						} else {
-							c.Bad("R14b", key, core.InstrPos(in), "address of a package-level variable passed to a call that is not a sync/atomic or sync.Pool operation")
+							c.Bad(rule, key, core.InstrPos(in), "address of a package-level variable passed to a call that is not a sync/atomic or sync.Pool operation")
 						}
 					case *ssa.Store:
 						// reported by the store inventory above
 					default:
-						c.Bad("R14b", key, core.InstrPos(in), fmt.Sprintf("address of a package-level variable escapes through %T", in))
+						c.Bad(rule, key, core.InstrPos(in), fmt.Sprintf("address of a package-level variable escapes through %T", in))
 					}
 					if seen[g] {
 						continue
@@ -450,20 +450,20 @@ func c14Globals(c *core.Ctx, e *entrySets, runFns []*ssa.Function) {
 						}
 					}
 					if bad != "" {
-						c.Bad("R14b", wkey, g.Pos(), "variable read on the NewTransform/Read path is written by "+bad+", which can run after package initialisation: unsynchronised read/write pair")
+						c.Bad(rule, wkey, g.Pos(), "variable read on the NewTransform/Read path is written by "+bad+", which can run after package initialisation: unsynchronised read/write pair")
 					} else {
-						c.OK("R14b", wkey, g.Pos(), fmt.Sprintf("%d writer(s), all package initialisers", len(writers[g])))
+						c.OK(rule, wkey, g.Pos(), fmt.Sprintf("%d writer(s), all package initialisers", len(writers[g])))
 					}
 				}
 			}
 		}
 	}
-	c.Floor("R14b", 10, "package-level variables used on the run path")
+	c.Floor(rule, 10, "package-level variables used on the run path")
 }
 
 // c14ObjectUses: v = load of global g. If the loaded value is a pointer/struct with interior state (caches),
 // every call it is passed to must be an allow-listed synchronised operation.
-func c14ObjectUses(c *core.Ctx, f *ssa.Function, load *ssa.UnOp, g *ssa.Global) {
+func c14ObjectUses(c *core.Ctx, f *ssa.Function, load *ssa.UnOp, g *ssa.Global, rule string) {
 	t := load.Type()
 	n := core.NamedOf(t)
 	if _, isPtr := t.Underlying().(*types.Pointer); !isPtr || n == nil {
@@ -480,14 +480,14 @@ func c14ObjectUses(c *core.Ctx, f *ssa.Function, load *ssa.UnOp, g *ssa.Global) 
 			full := o.Pkg().Path() + "." + core.FuncName(o)
 			switch full {
 			case "github.com/jf-tech/go-corelib/caches.LoadingCache.Get":
-				c.OK("R14b", key, core.InstrPos(ci), "LoadingCache.Get (LRU is internally locked)")
+				c.OK(rule, key, core.InstrPos(ci), "LoadingCache.Get (LRU is internally locked)")
 				continue
 			}
 			if o.Pkg().Path() == "sync/atomic" || o.Pkg().Path() == "sync" {
-				c.OK("R14b", key, core.InstrPos(ci), full)
+				c.OK(rule, key, core.InstrPos(ci), full)
 				continue
 			}
 		}
-		c.Bad("R14b", key, core.InstrPos(ci), "object held in a package-level variable is passed to "+ci.Common().String()+", which is not one of the synchronised operations (sync.Pool, sync/atomic, LoadingCache.Get)")
+		c.Bad(rule, key, core.InstrPos(ci), "object held in a package-level variable is passed to "+ci.Common().String()+", which is not one of the synchronised operations (sync.Pool, sync/atomic, LoadingCache.Get)")
 	}
 }
